@@ -184,7 +184,7 @@ class Fn:
     def __init__(self, file, container, name, ret="r", requires=(), ensures=(), findings=(),
                  loops=None, proofs=(), rewrites=(), sig_rewrites=(), emit_as=None, nth=0,
                  decreases=None, attrs="", props=None, rename=None, no_canary=False,
-                 opens_invariants=None, no_unwind=False, extra_variants=()):
+                 opens_invariants=None, no_unwind=False, extra_variants=(), stub=False):
         self.file, self.container, self.name, self.ret = file, container, name, ret
         self.requires = _clauses(requires)
         self.ensures = _clauses(ensures)
@@ -201,6 +201,8 @@ class Fn:
         self.rename = rename
         self.no_canary = no_canary
         self.no_unwind = no_unwind
+        self.stub = stub   # emit signature + contract only (external_body): an ASSUMED contract here,
+                           # to be discharged by the unit that verifies the same function
 
     # -- helpers ---------------------------------------------------------------------------
     def _impl_header(self, sf):
@@ -285,6 +287,8 @@ class Fn:
                 txt += header + " {\n"
             if self.attrs:
                 txt += self.attrs + "\n"
+            if self.stub:
+                txt += "#[verifier::external_body]\n"
             txt += s + "\n"
             if self.requires:
                 txt += "    requires\n"
@@ -299,13 +303,15 @@ class Fn:
                 txt += "    decreases %s,\n" % self.decreases
             if self.no_unwind:
                 txt += "    no_unwind\n"
-            txt += body + "\n"
+            txt += ("{ unimplemented!() }" if self.stub else body) + "\n"
             if header:
                 txt += "}\n"
             txt += "/*@ENDFN*/\n"
             unit.register_fn(fid, kind, self, [c for c in ens], props)
             return txt
 
+        if self.stub:
+            return variant(base, [], "stub")
         out.append(variant(base, [], "main"))
         for f in self.findings:
             out.append(variant("%s__F_%s" % (base, f.label), [f], "finding"))
@@ -423,7 +429,12 @@ class Unit:
         parts = [HEADER]
         for p in self.prelude:
             with open(os.path.join(SPECS, "prelude", p + ".rs"), encoding="utf-8") as f:
-                parts.append("// ---- prelude: %s ----\n" % p + f.read() + "\n")
+                # everything lives in one private module: drop visibility so that shims may
+                # mention the (private) extracted types
+                ptxt = f.read()
+                if ptxt.startswith("// @private"):
+                    ptxt = re.sub(r"\bpub\s+((?:open|closed)\s+)?", "", ptxt)
+                parts.append("// ---- prelude: %s ----\n" % p + ptxt + "\n")
         for it in self.items:
             parts.append(it.emit(self))
         parts.append(FOOTER)
